@@ -59,3 +59,189 @@ LEMMAS = []
 ASSUMPTIONS = ["labels are floats, classes are ints: `x == y` compares the label with the class converted to a real (numpy semantics)",
                "sum() of the 0/1 list is the ghost function Sum over the pointwise-defined indicator sequence",
                "scaling fixed at learning time, out-of-range removal, arg-max over class densities, history independence: layer B only"]
+
+
+# --------------------------------------------------------------------------- test_data: bookkeeping of tested samples and their classes
+from contracts.C18 import IsEmpty, rows, appended  # noqa: E402
+from pyvc.values import Opaque  # noqa: E402
+
+
+def VV(x):
+    return z3.IntVal(x) if isinstance(x, int) else x
+
+
+def _fresh_ds(S, tag):
+    return dataset(S, tag)
+
+
+class _Step(Contract):
+    """abstract steps of Classification.test_data (numpy / density-estimation based): what they promise about shapes is stated, nothing about values"""
+    trusted = True
+    file = FILE
+
+    def __init__(self, qualname, params, note, result=None, havoc=None, post=None, defaults=None):
+        self.qualname, self._params, self.note, self._result, self._havoc, self._post = qualname, params, note, result, havoc, post
+        if defaults:
+            self.defaults = defaults
+
+    def inputs(self, S):
+        d = {"self": Obj(self.qualname.split(".")[0], {})}
+        for p in self._params:
+            d[p] = None
+        return d
+
+    def havoc(self, S, cenv, tag):
+        if self._havoc:
+            self._havoc(S, cenv, tag)
+
+    def result(self, S, env):
+        return self._result(S, env) if self._result else None
+
+    def post(self, S, old, env, result):
+        return self._post(S, old, env, result) if self._post else []
+
+
+def _h_internal_scaling(S, cenv, tag):
+    # samples outside the learned range are removed from the checked set in place: some shorter (or equal) set remains
+    ds = cenv["data_to_check"]
+    n0 = ds.fields["_data"].items[0].len()
+    n = S.int(tag + ".kept")
+    S.assume(z3.And(n >= 0, n <= n0))
+    ds.fields["_data"] = Seq("tuple", [S.seq(tag + ".samples", n, P.U, kind="array"), S.seq(tag + ".labels", n, R, kind="array")])
+
+
+def _r_split_without_labels(S, env):
+    n = env["self"].fields["_data"].items[0].len()
+    om, us = _fresh_ds(S, ".omitted"), _fresh_ds(S, ".used")
+    S.assume(VV(om.fields["_data"].items[0].len()) + VV(us.fields["_data"].items[0].len()) == VV(n))
+    S.ex.ghost["omitted"], S.ex.ghost["used"] = om, us
+    return Seq("tuple", [om, us])
+
+
+def _r_concatenate(S, env):
+    res = _fresh_ds(S, ".cat%d" % len(S.ex.ghost.setdefault("cats", [])))
+    S.ex.ghost["cats"].append(res)
+    return res
+
+
+def _p_concatenate(S, old, env, result):
+    return [("rows-appended-in-order", appended(result, old["self"], old["other_dataset"]))]
+
+
+def _r_classificate(S, env):
+    n = env["data_to_classificate"].fields["_data"].items[0].len()
+    if S.ex.decide(VV(n) == 0):
+        # no labelled in-range sample left: the real code raises (IndexError from the arg-max over an empty density table) after the unlabelled samples
+        # were set aside -- an exceptional exit (observed natively; recorded in DESIGN.md section 9 as an observation, not a property violation)
+        from pyvc.engine import RaiseEx
+        raise RaiseEx("IndexError", S.ex.fn)
+    c = S.seq("new_classes", n, I, kind="array")
+    S.ex.ghost["new_classes"] = c
+    return c
+
+
+def _r_evaluate(S, env):
+    w = S.int("wrong")
+    return {"Wrong mappings": w, "Total mappings": env["calculated_classes"].len(), "Percentage correct": S.real("pct")}
+
+
+TD_STEPS = [IsEmpty(),
+            _Step("DataSet.get_name", [], "name of the set (a string)", result=lambda S, env: "name"),
+            _Step("DataSet.set_label", ["label"], "sets the label caption; data untouched"),
+            _Step("Classification._internal_scaling", ["data_to_check", "print_removed"], "scales the set like the learning data and removes out-of-range samples IN PLACE (layer B: which ones); returns the same set",
+                  havoc=_h_internal_scaling, result=lambda S, env: env["data_to_check"], defaults={"print_removed": False}),
+            _Step("DataSet.split_without_labels", [], "splits into (unlabelled, labelled) sets that together hold every sample once (layer B / C18)", result=_r_split_without_labels),
+            _Step("DataSet.concatenate", ["other_dataset"], "proved in C18 (Concatenate): rows of the receiver followed by rows of the argument", result=_r_concatenate, post=_p_concatenate),
+            _Step("Classification._classificate", ["data_to_classificate"], "one class per sample of the given set (arg-max of the class densities: layer B)", result=_r_classificate)]
+
+
+def classification(S):
+    td = dataset(S, ".testing")
+    n0 = td.fields["_data"].items[0].len()
+    return Obj("Classification", dict(_performed_classification=True, _omitted_data=dataset(S, ".omitted0"), _scaled_data=dataset(S, ".scaled0"), _testing_data=td,
+                                      _calculated_classes_testset=S.seq("classes0", n0, I, kind="array"), _densities_testset=None, _data_range=None,
+                                      log_util=Obj("LogUtility", {})))
+
+
+class TestData(Contract):
+    """Classification.test_data: the tested samples and their classes are appended to what was tested before -- earlier classes are not changed, classes and
+    tested samples stay aligned, unlabelled samples are set aside, and the returned summary is the evaluation of exactly the newly tested samples"""
+    file, qualname = FILE, "Classification.test_data"
+    total = False       # refusing an empty / entirely out-of-range set (ValueError) is the documented reaction
+
+    def inputs(self, S):
+        return {"self": classification(S), "new_testing_data": dataset(S, ".new"), "print_output": False, "print_removed": False, "print_incorrect_points": False}
+
+    def post(self, S, old, env, result):
+        g = S.ex.ghost
+        f, f0 = env["self"].fields, old["self"].fields
+        used, omitted, newc = g.get("used"), g.get("omitted"), g.get("new_classes")
+        cls = f["_calculated_classes_testset"]
+        if used is None or omitted is None or newc is None or not isinstance(cls, Seq) or not isinstance(result, dict):
+            return [Cl("tests-the-labelled-in-range-samples-and-returns-their-summary", False, prop=True)]
+        cls, cls0 = cls.to_symbolic(), f0["_calculated_classes_testset"].to_symbolic()
+        n0, nu = VV(cls0.len()), VV(used.fields["_data"].items[0].len())
+        i = z3.Int("tdi")
+        from pyvc import values as Vv
+        return [Cl("tests-the-labelled-in-range-samples-and-returns-their-summary", True, prop=True),
+                Cl("classes-of-earlier-data-unchanged", z3.And(VV(cls.len()) == n0 + nu, z3.ForAll([i], z3.Implies(z3.And(i >= 0, i < n0), z3.Select(cls.arr, i) == z3.Select(cls0.arr, i)))), prop=True),
+                Cl("new-classes-appended-in-order", z3.ForAll([i], z3.Implies(z3.And(i >= 0, i < nu), z3.Select(cls.arr, n0 + i) == z3.Select(newc.arr, i))), prop=True),
+                Cl("tested-samples-appended-and-aligned-with-the-classes", z3.And(appended(f["_testing_data"], f0["_testing_data"], used), VV(rows(f["_testing_data"])[0].len()) == VV(cls.len())), prop=True),
+                Cl("unlabelled-samples-set-aside", appended(f["_omitted_data"], f0["_omitted_data"], omitted), prop=True),
+                Cl("scaled-data-record-extended", appended(f["_scaled_data"], f0["_scaled_data"], used)),
+                Cl("summary-covers-exactly-the-newly-tested-samples", Vv.to_z3(result["Total mappings"]) == nu, prop=True)]
+
+    def pre(self, S, env):
+        f = env["self"].fields
+        return [("classes-aligned-with-tested-samples", VV(f["_calculated_classes_testset"].len()) == VV(rows(f["_testing_data"])[0].len()))]
+
+    @staticmethod
+    def model_to_input(model):
+        return {"kind": "C19.test_data"}
+
+
+for _c in CONTRACTS:
+    if isinstance(_c, Evaluate):
+        _c.result = _r_evaluate.__get__(_c) if False else (lambda S, env: _r_evaluate(S, env))
+CONTRACTS += TD_STEPS + [TestData()]
+ASSUMPTIONS += ["test_data: scaling / removal of out-of-range samples, the split by missing label, concatenation and the arg-max classification are abstract steps (shapes only); "
+                "the printing branch (print_output) is not taken"]
+
+
+class CallEvaluate(Contract):
+    """Classification.__call__: evaluating further data returns one class per remaining sample of the given set and leaves the classes (and tested samples)
+    recorded for earlier data untouched; the temporary density rows are removed again"""
+    file, qualname = FILE, "Classification.__call__"
+    total = False
+    inline = ("DataSet.__getitem__", "__getitem__", "DataSet.get_length", "get_length")
+
+    def inputs(self, S):
+        c = classification(S)
+        nd = S.int("n_dens")
+        S.assume(nd >= 0)
+        c.fields["_densities_testset"] = S.seq("densities", nd, P.U, kind="list")
+        return {"self": c, "data_to_evaluate": dataset(S, ".new"), "print_removed": False}
+
+    def post(self, S, old, env, result):
+        f, f0 = env["self"].fields, old["self"].fields
+        newc = S.ex.ghost.get("new_classes")
+        ok = isinstance(result, Obj) and isinstance(result.fields.get("_data"), Seq) and newc is not None
+        if not ok:
+            return [Cl("returns-a-data-set-of-the-evaluated-samples-with-their-classes", False, prop=True)]
+        rs, rl = rows(result)
+        es, _ = rows(env["data_to_evaluate"])
+        i = z3.Int("cei")
+        cls, cls0 = f["_calculated_classes_testset"].to_symbolic(), f0["_calculated_classes_testset"].to_symbolic()
+        return [Cl("returns-a-data-set-of-the-evaluated-samples-with-their-classes", True, prop=True),
+                Cl("one-class-per-evaluated-sample-attached-in-order", z3.And(VV(rs.len()) == VV(es.len()), VV(rl.len()) == VV(es.len()),
+                   z3.ForAll([i], z3.Implies(z3.And(i >= 0, i < VV(es.len())), z3.And(z3.Select(rs.arr, i) == z3.Select(es.arr, i), z3.Select(rl.arr, i) == z3.ToReal(z3.Select(newc.arr, i)))))), prop=True),
+                Cl("classes-of-earlier-data-unchanged", z3.And(VV(cls.len()) == VV(cls0.len()), cls.arr == cls0.arr), prop=True),
+                Cl("tested-samples-record-untouched", z3.And(*[x.arr == y.arr for x, y in zip(rows(f["_testing_data"]), rows(f0["_testing_data"]))]), prop=True)]
+
+    @staticmethod
+    def model_to_input(model):
+        return {"kind": "C19.test_data"}
+
+
+from contracts.C18 import DataSetInit  # noqa: E402
+CONTRACTS += [DataSetInit(), CallEvaluate()]
